@@ -110,7 +110,14 @@ class World:
         args = [arms, lp, npv, Val(deps=[("param", "seed")], tags=["seed"]),
                 Val(deps=[("param", "n_jobs")], tags=["n_jobs"]), Val(deps=[("param", "backend")])]
         e.epoch = 0
-        e.call_function(init, Val(refs=[mab.oid]), mab_cls, args, {}, None)
+        # construction: validated sizes (n_clusters >= 2, non-empty arms) make the constructor loops run, and loops
+        # over all elements update every element
+        saved_mode = e.typestate_mode
+        e.typestate_mode = True
+        try:
+            e.call_function(init, Val(refs=[mab.oid]), mab_cls, args, {}, None)
+        finally:
+            e.typestate_mode = saved_mode
         self.init_trace = root
         # everything reachable from the bandit now belongs to the bandit
         for oid in self.reachable(mab.oid):
